@@ -44,5 +44,8 @@ def run(ctx):
     runs.append(sc.SRun("ConcurrentImmix", "gate-f1", driver="scheddrive", workers=2, mutators=1,
                         heap=16, extra=["--gate", "f1"], seed_off=50))
     st = sc.execute(ctx, runs, PREFIXES)
+    first = st.pop("_first_trace", None)
+    if ctx.tier == "thorough" and first and not ctx.violations:
+        sc.binding_demo(ctx, first)
     ctx.cov.update({"driver": st, "rule": sc.RULE, "plans": sc.PLANS})
 
